@@ -514,8 +514,8 @@ theorem processLine_inv {B off : Nat} {st : Inner} {line : List Byte} (h : CInv 
   · simp only [hm, Bool.not_true, Bool.false_eq_true, if_false]
     have hlen : (stripCR line).length % pow32 < pow32 := Nat.mod_lt _ (by decide)
     obtain ⟨st1, hfp, hc1, hp1, hmi1, hhm1⟩ := finishPending_inv h hb
-    cases hcl : classify (stripCR line) with
-    | file idx =>
+    cases hcl : classify (stripCR line) <;> simp only [applyClass]
+    case file idx =>
       refine ⟨_, rfl, ?_⟩
       have hidx := classify_file_lt _ _ hcl
       constructor
@@ -529,7 +529,7 @@ theorem processLine_inv {B off : Nat} {st : Inner} {line : List Byte} (h : CInv 
       · exact SVB.push_inv _ _ h'.filesInv
       · exact h'.originsInv
       · exact fun _ => h'.module hm
-    | origin idx =>
+    case origin idx =>
       refine ⟨_, rfl, ?_⟩
       have hidx := classify_origin_lt _ _ hcl
       constructor
@@ -543,7 +543,7 @@ theorem processLine_inv {B off : Nat} {st : Inner} {line : List Byte} (h : CInv 
       · exact h'.filesInv
       · exact SVB.push_inv _ _ h'.originsInv
       · exact fun _ => h'.module hm
-    | pub addr =>
+    case pub addr =>
       simp only [hfp, Option.map_some]
       refine ⟨_, rfl, ?_⟩
       have ha := classify_pub_lt _ _ hcl
@@ -559,7 +559,7 @@ theorem processLine_inv {B off : Nat} {st : Inner} {line : List Byte} (h : CInv 
       · exact hc1.filesInv
       · exact hc1.originsInv
       · exact hc1.module
-    | func addr =>
+    case func addr =>
       simp only [hfp, Option.map_some]
       refine ⟨_, rfl, ?_⟩
       have ha := classify_func_lt _ _ hcl
@@ -574,7 +574,7 @@ theorem processLine_inv {B off : Nat} {st : Inner} {line : List Byte} (h : CInv 
       · exact hc1.filesInv
       · exact hc1.originsInv
       · exact hc1.module
-    | info =>
+    case info =>
       have hinfo := classify_info _ hcl
       simp only [hfp, Option.map_some]
       refine ⟨_, rfl, ?_⟩
@@ -595,8 +595,8 @@ theorem processLine_inv {B off : Nat} {st : Inner} {line : List Byte} (h : CInv 
           rcases hl' with hl' | hl'
           · exact hi1 l hl'
           · subst hl'; exact ⟨hin, hinfo⟩
-    | stack => exact ⟨st1, hfp, hc1⟩
-    | other => exact ⟨st, rfl, h'⟩
+    case stack => exact ⟨st1, hfp, hc1⟩
+    case other => exact ⟨st, rfl, h'⟩
   · have hm' : st.hasModule = false := by simpa using hm
     simp only [hm', Bool.not_false, if_true]
     refine ⟨_, rfl, ?_⟩
